@@ -156,7 +156,8 @@ def inv_cancel_and_remove(c):
             ("waiters-only-shrink", sem_only_waiters_shrunk(c.st0.sh, c.st.sh))]
 
 
-LOOPSPECS[(P_B + "_cancel_and_remove_all_from_group", 1)] = LoopSpec(inv_cancel_and_remove, ("C07",), name="cancel-members", sig="group_reg")
+LOOPSPECS[(P_B + "_cancel_and_remove_all_from_group", 1)] = LoopSpec(inv_cancel_and_remove, ("C07",), name="cancel-members", sig="group_reg",
+                                                                         variant=lambda c: c.loc("group_reg").fields["_ids"].card)  # every turn pops one id
 
 
 def cancel_and_remove_post(st0: St, s: St, g, ids0: SetV):
@@ -270,7 +271,8 @@ def inv_cancel_all(c):
             ("waiters-only-shrink", sem_only_waiters_shrunk(c.st0.sh, c.st.sh))]
 
 
-LOOPSPECS[(P_B + "cancel_all", 1)] = LoopSpec(inv_cancel_all, ("C07",), name="each-group", sig="self._task_groups")
+LOOPSPECS[(P_B + "cancel_all", 1)] = LoopSpec(inv_cancel_all, ("C07",), name="each-group", sig="self._task_groups",
+                                              variant=lambda c: PView(c.st).G.card)  # every turn pops one group
 
 
 @unit(P_B + "cancel_all", ("C07",), [P_B + "cancel_all", P_B + "_get_cancel_kw"])
@@ -516,10 +518,25 @@ def inv_generate_group_name(c):
     base: StrV = c.loc("base_name")
     i = c.loc("i").t
     k = z3.Int("k!l")
-    return [("all-smaller-indices-taken", z3.And(i >= 0, z3.ForAll([k], z3.Implies(z3.And(0 <= k, k < i), p.G.has(sym.str_concat([base, "-", StrV(sym.itos(k))]).t)))))]
+    return [("all-smaller-indices-taken", z3.And(i >= 0, z3.ForAll([k], z3.Implies(z3.And(0 <= k, k < i), p.G.has(sym.str_concat([base, "-", StrV(sym.itos(k))]).t))))),
+            ("not-beyond-the-first-free-index", i <= _free_index(c))]
 
 
-LOOPSPECS[(P_T + "_generate_group_name", 1)] = LoopSpec(inv_generate_group_name, ("C10",), name="first-free-index", sig="True")
+FREE_INDEX = z3.Function("first_free_group_index", z3.ArraySort(S, B), S, I)
+
+
+def _free_index(c):
+    """trusted container fact (pigeonhole): a finite dict cannot hold all of the infinitely many distinct names
+    `<base>-0, <base>-1, ...` (str(int) is injective), so some index is free.  Used only for termination."""
+    p = PView(c.st)
+    base: StrV = c.loc("base_name")
+    kf = FREE_INDEX(p.G.mem, base.t)
+    c.st.assume(z3.And(kf >= 0, z3.Not(p.G.has(sym.str_concat([base, "-", StrV(sym.itos(kf))]).t))))
+    return kf
+
+
+LOOPSPECS[(P_T + "_generate_group_name", 1)] = LoopSpec(inv_generate_group_name, ("C10",), name="first-free-index", sig="True",
+                                                        variant=lambda c: _free_index(c) - c.loc("i").t)
 
 
 def spawn_events(s: St):
@@ -1106,7 +1123,8 @@ def inv_pop_delete(c):
 
 
 LOOPSPECS[(P_B + "_pop_ended_meta_tasks", 1)] = LoopSpec(inv_pop_outer, ("C07", "C08"), name="each-group", sig="self._group_meta_tasks_running")
-LOOPSPECS[(P_B + "_pop_ended_meta_tasks", 2)] = LoopSpec(inv_pop_inner, ("C07", "C08"), name="drain-group", sig="self._group_meta_tasks_running[group_name]")
+LOOPSPECS[(P_B + "_pop_ended_meta_tasks", 2)] = LoopSpec(inv_pop_inner, ("C07", "C08"), name="drain-group", sig="self._group_meta_tasks_running[group_name]",
+                                                         variant=lambda c: z3.Select(PView(c.st).M.cols[1], c.loc("group_name").t))  # every turn pops one meta task
 LOOPSPECS[(P_B + "_pop_ended_meta_tasks", 3)] = LoopSpec(inv_pop_delete, ("C07", "C08"), name="drop-empty", sig="obsolete_keys")
 
 
